@@ -189,9 +189,6 @@ pub fn triggers(q: &Query) -> Vec<&'static str> {
     }
     fn from_trig(f: &FromItem, v: &mut Vec<&'static str>) {
         if let FromItem::Join { l, kind, r, on } = f {
-            if matches!(kind, JoinKind::Right | JoinKind::Full) {
-                v.push("right_full_join");
-            }
             if let Some(o) = on {
                 pred_trig(o, v);
             }
@@ -296,10 +293,6 @@ impl Check for C01 {
             // stay out of the regions of recorded defects (see `triggers`) so the search goes on behind them
             if ["c01.trigger.in_subquery", "c01.trigger.not_in_subquery", "c01.trigger.exists_subquery"].iter().any(|s| cfg.avoiding(s)) {
                 eo.pred_subqueries = false;
-                excluded += 1;
-            }
-            if cfg.avoiding("c01.trigger.right_full_join") {
-                qo.right_full = false;
                 excluded += 1;
             }
             if cfg.avoiding("c01.trigger.self_join_where") {
